@@ -155,7 +155,7 @@ def run_case(case):
     if case['k'] == 'pair':
         ta, tb = tuple(case['ta']), tuple(case['tb'])
         in_types = {'a': ta, 'b': tb}
-        exprs = c02.pair_exprs(ta, tb)
+        exprs = c02.pair_exprs(ta, tb) + c02.lit_exprs(ta, tb, rnd)
         if ta == tb:
             exprs += c02.int_exprs(ta)
         if tb[0] == 'u' and ta[0] != 'bit':
